@@ -59,7 +59,9 @@ META = {
                     "grid dimension is the same for sd, the active grid and each subgrid (X.dim are identified)",
                     "the update arm of Biot.discretize (update_discretization=True) is dictionary-level inconsistent "
                     "today (reported as a note, see final report); set REPORT_KEYED_UPDATE_LEVEL to make it a finding"],
-    "technique": "typed dataflow over a statement CFG (reaching definitions + dominance) with set-equality chain",
+    "technique": "typed dataflow over a statement CFG (reaching definitions + dominance) with set-equality chain, on a "
+                 "desugared normal form (one level of private straight-line helpers inlined, loops/comprehensions over "
+                 "literal sequences unrolled, parallel tuple assignments split)",
 }
 MIN_INSTANCES = {"R1": 40, "R2": 22, "R3": 200, "R4": 100, "R5": 15, "R6": 3, "R7": 38, "R8": 30, "R9": 1}
 
@@ -102,6 +104,326 @@ def is_transpose(e: ast.expr) -> Optional[ast.expr]:
     return None
 
 
+# ------------------------------------------------------------------------------------
+# desugaring: the analyses below work on a normalised copy of each function in which
+#   * one level of private straight-line helpers (`self._h(..)`, `Cls._h(..)`, `_h(..)`) is inlined,
+#   * comprehensions and for-loops over literal sequences (incl. names bound once to a literal list
+#     of pairs, enumerate(..), zip(..)) are unrolled,
+#   * parallel tuple assignments `a, b = x, y` are split when that is order-safe.
+# All of these are behaviour preserving, so a rule that holds on the normal form holds on the source.
+
+class _Subst(ast.NodeTransformer):
+    def __init__(self, mapping: dict):
+        self.mapping = mapping
+
+    def visit_Name(self, n: ast.Name):
+        if isinstance(n.ctx, ast.Load) and n.id in self.mapping:
+            return copy.deepcopy(self.mapping[n.id])
+        return n
+
+
+def _subst(node: ast.AST, mapping: dict) -> ast.AST:
+    return _Subst(mapping).visit(copy.deepcopy(node))
+
+
+def _stores(root: ast.AST) -> dict[str, int]:
+    cnt: dict[str, int] = {}
+    for n in ast.walk(root):
+        if isinstance(n, ast.Name) and isinstance(n.ctx, (ast.Store, ast.Del)):
+            cnt[n.id] = cnt.get(n.id, 0) + 1
+        elif isinstance(n, ast.arg):
+            cnt[n.arg] = cnt.get(n.arg, 0) + 1
+    return cnt
+
+
+def _no_star(elts) -> bool:
+    return not any(isinstance(e, ast.Starred) for e in elts)
+
+
+class _Desugar:
+    MAX_ELTS = 24
+
+    def __init__(self, mod, fn: ast.FunctionDef, cls: Optional[ast.ClassDef]):
+        self.mod, self.fn, self.cls = mod, fn, cls
+
+    # -- literal sequences --------------------------------------------------------------------
+    def seq_names(self) -> dict[str, list]:
+        """names bound exactly once, to a literal list/tuple, and never mutated"""
+        cnt = _stores(self.fn)
+        out: dict[str, list] = {}
+        mutated = set()
+        for n in ast.walk(self.fn):
+            if isinstance(n, ast.Call) and isinstance(n.func, ast.Attribute) and isinstance(n.func.value, ast.Name) \
+                    and n.func.attr in ("append", "extend", "insert", "pop", "remove", "clear", "sort", "reverse"):
+                mutated.add(n.func.value.id)
+            if isinstance(n, (ast.Subscript, ast.Attribute)) and isinstance(n.ctx, (ast.Store, ast.Del)):
+                b = n
+                while isinstance(b, (ast.Subscript, ast.Attribute)):
+                    b = b.value
+                if isinstance(b, ast.Name):
+                    mutated.add(b.id)
+            if isinstance(n, ast.AugAssign) and isinstance(n.target, ast.Name):
+                mutated.add(n.target.id)
+        for n in ast.walk(self.fn):
+            tgt = val = None
+            if isinstance(n, ast.Assign) and len(n.targets) == 1:
+                tgt, val = n.targets[0], n.value
+            elif isinstance(n, ast.AnnAssign) and n.value is not None:
+                tgt, val = n.target, n.value
+            if isinstance(tgt, ast.Name) and cnt.get(tgt.id) == 1 and tgt.id not in mutated \
+                    and isinstance(val, (ast.List, ast.Tuple)) and _no_star(val.elts) and 0 < len(val.elts) <= self.MAX_ELTS:
+                out[tgt.id] = list(val.elts)
+        return out
+
+    def literal_seq(self, e: ast.expr, seqs: dict) -> Optional[list]:
+        if isinstance(e, (ast.List, ast.Tuple)) and _no_star(e.elts) and len(e.elts) <= self.MAX_ELTS:
+            return list(e.elts)
+        if isinstance(e, ast.Name) and e.id in seqs:
+            return seqs[e.id]
+        if isinstance(e, ast.Call) and isinstance(e.func, ast.Name) and not e.keywords:
+            if e.func.id in ("list", "tuple") and len(e.args) == 1:
+                return self.literal_seq(e.args[0], seqs)
+            if e.func.id == "enumerate" and len(e.args) == 1:
+                inner = self.literal_seq(e.args[0], seqs)
+                if inner is not None:
+                    return [ast.Tuple(elts=[ast.Constant(value=i), x], ctx=ast.Load()) for i, x in enumerate(inner)]
+            if e.func.id == "zip" and e.args:
+                inners = [self.literal_seq(a, seqs) for a in e.args]
+                if all(i is not None for i in inners) and len({len(i) for i in inners}) == 1:  # type: ignore[arg-type]
+                    return [ast.Tuple(elts=list(t), ctx=ast.Load()) for t in zip(*inners)]  # type: ignore[arg-type]
+        return None
+
+    def match(self, tgt: ast.expr, elem: ast.expr) -> Optional[dict]:
+        if isinstance(tgt, ast.Name):
+            return {tgt.id: elem}
+        if isinstance(tgt, (ast.Tuple, ast.List)) and _no_star(tgt.elts) and isinstance(elem, (ast.Tuple, ast.List)) \
+                and _no_star(elem.elts) and len(elem.elts) == len(tgt.elts):
+            out: dict = {}
+            for t, x in zip(tgt.elts, elem.elts):
+                m = self.match(t, x)
+                if m is None:
+                    return None
+                out.update(m)
+            return out
+        return None
+
+    # -- passes -------------------------------------------------------------------------------------
+    def expand_comprehensions(self, seqs: dict) -> bool:
+        outer = self
+        changed = [False]
+
+        class T(ast.NodeTransformer):
+            def generic_comp(self, n):
+                self.generic_visit(n)
+                if len(n.generators) != 1:
+                    return n
+                g = n.generators[0]
+                if g.ifs or g.is_async:
+                    return n
+                seq = outer.literal_seq(g.iter, seqs)
+                if seq is None:
+                    return n
+                elts = []
+                for x in seq:
+                    m = outer.match(g.target, x)
+                    if m is None:
+                        return n
+                    elts.append(_subst(n.elt, m))
+                changed[0] = True
+                return ast.copy_location(ast.List(elts=elts, ctx=ast.Load()), n)
+
+            visit_ListComp = generic_comp
+            visit_GeneratorExp = generic_comp
+
+        T().visit(self.fn)
+        return changed[0]
+
+    def rewrite_blocks(self, f) -> bool:
+        """apply f(stmt) -> Optional[list[stmt]] to every statement of every block (bottom-up)"""
+        changed = [False]
+
+        def block(stmts: list) -> list:
+            out = []
+            for s in stmts:
+                if isinstance(s, (ast.FunctionDef, ast.AsyncFunctionDef, ast.ClassDef)) and s is not self.fn:
+                    out.append(s)
+                    continue
+                for fld in ("body", "orelse", "finalbody"):
+                    b = getattr(s, fld, None)
+                    if isinstance(b, list) and b and isinstance(b[0], ast.stmt):
+                        setattr(s, fld, block(b))
+                for h in getattr(s, "handlers", []) or []:
+                    h.body = block(h.body)
+                r = f(s)
+                if r is None:
+                    out.append(s)
+                else:
+                    changed[0] = True
+                    out.extend(r)
+            return out
+
+        self.fn.body = block(self.fn.body)
+        return changed[0]
+
+    def unroll_loops(self, seqs: dict) -> bool:
+        def f(s):
+            if not isinstance(s, ast.For) or s.orelse:
+                return None
+            seq = self.literal_seq(s.iter, seqs)
+            if seq is None:
+                return None
+            if any(isinstance(n, (ast.Break, ast.Continue)) for b in s.body for n in ast.walk(b)):
+                return None
+            tvars = {n.id for n in ast.walk(s.target) if isinstance(n, ast.Name)}
+            if any(isinstance(n, ast.Name) and isinstance(n.ctx, ast.Store) and n.id in tvars for b in s.body for n in ast.walk(b)):
+                return None
+            out = []
+            for x in seq:
+                m = self.match(s.target, x)
+                if m is None:
+                    return None
+                out += [_subst(b, m) for b in s.body]
+            return out
+
+        return self.rewrite_blocks(f)
+
+    def split_tuple_assigns(self) -> bool:
+        def f(s):
+            if not (isinstance(s, ast.Assign) and len(s.targets) == 1 and isinstance(s.targets[0], (ast.Tuple, ast.List))
+                    and isinstance(s.value, (ast.Tuple, ast.List))):
+                return None
+            ts, vs = s.targets[0].elts, s.value.elts
+            if len(ts) != len(vs) or not _no_star(ts) or not _no_star(vs) or len(ts) < 2:
+                return None
+            written: set[str] = set()
+            for t, v in zip(ts, vs):
+                if names_in(v) & written:
+                    return None  # a later value reads an earlier target: not order-safe
+                written |= {n.id for n in ast.walk(t) if isinstance(n, ast.Name)} | ({base_name(t)} if base_name(t) else set())
+            return [ast.copy_location(ast.Assign(targets=[t], value=v), s) for t, v in zip(ts, vs)]
+
+        return self.rewrite_blocks(f)
+
+    def drop_dead_seqs(self) -> None:
+        seqs = self.seq_names()
+        loads = {n.id for n in ast.walk(self.fn) if isinstance(n, ast.Name) and isinstance(n.ctx, ast.Load)}
+
+        def f(s):
+            tgt = s.targets[0] if isinstance(s, ast.Assign) and len(s.targets) == 1 else (s.target if isinstance(s, ast.AnnAssign) else None)
+            if isinstance(tgt, ast.Name) and tgt.id in seqs and tgt.id not in loads and self._unrolled.get(tgt.id):
+                return []
+            return None
+
+        self.rewrite_blocks(f)
+
+    # -- helper inlining ------------------------------------------------------------------------------
+    def callee(self, call: ast.Call):
+        fnc = call.func
+        name = recv = None
+        if isinstance(fnc, ast.Attribute) and isinstance(fnc.value, ast.Name) and self.cls is not None \
+                and fnc.value.id in ("self", "cls", self.cls.name):
+            name, recv = fnc.attr, fnc.value
+            pool = [x for x in self.cls.body if isinstance(x, ast.FunctionDef) and x.name == name]
+        elif isinstance(fnc, ast.Name):
+            name = fnc.id
+            pool = [x for x in self.mod.tree.body if isinstance(x, ast.FunctionDef) and x.name == name]
+        else:
+            return None
+        if not name or not name.startswith("_") or name.startswith("__") or len(pool) != 1 or pool[0] is self.fn:
+            return None
+        d = pool[0]
+        decs = [u(x) for x in d.decorator_list]
+        if any(x not in ("staticmethod", "classmethod") for x in decs):
+            return None
+        a = d.args
+        if a.vararg or a.kwarg or a.posonlyargs:
+            return None
+        body = body_nodoc(d)
+        if not body or len(body) > 12 or not isinstance(body[-1], ast.Return) or body[-1].value is None:
+            return None
+        for st in body[:-1]:
+            ok = (isinstance(st, ast.Assign) and len(st.targets) == 1 and isinstance(st.targets[0], ast.Name)) or \
+                 (isinstance(st, ast.AnnAssign) and isinstance(st.target, ast.Name) and st.value is not None)
+            if not ok:
+                return None
+        params = [x.arg for x in a.args]
+        mapping: dict = {}
+        if recv is not None and "staticmethod" not in decs:
+            if not params:
+                return None
+            mapping[params[0]] = recv
+            params = params[1:]
+        if len(call.args) > len(params) or any(isinstance(x, ast.Starred) for x in call.args) or any(k.arg is None for k in call.keywords):
+            return None
+        for pn, x in zip(params, call.args):
+            mapping[pn] = x
+        for k in call.keywords:
+            if k.arg in mapping or k.arg not in params + [x.arg for x in a.kwonlyargs]:
+                return None
+            mapping[k.arg] = k.value
+        defaults = dict(zip([x.arg for x in a.args][len(a.args) - len(a.defaults):], a.defaults))
+        defaults.update({x.arg: dv for x, dv in zip(a.kwonlyargs, a.kw_defaults) if dv is not None})
+        for pn in params + [x.arg for x in a.kwonlyargs]:
+            if pn not in mapping:
+                if pn not in defaults:
+                    return None
+                mapping[pn] = defaults[pn]
+        for st in body[:-1]:
+            tgt = st.targets[0] if isinstance(st, ast.Assign) else st.target
+            mapping[tgt.id] = _subst(st.value, mapping)
+        return _subst(body[-1].value, mapping)
+
+    def inline_helpers(self) -> bool:
+        outer = self
+        changed = [False]
+
+        class T(ast.NodeTransformer):
+            def visit_FunctionDef(self, n):
+                return n if n is not outer.fn else self.generic_visit(n)
+
+            def visit_Call(self, n: ast.Call):
+                self.generic_visit(n)
+                r = outer.callee(n)
+                if r is None:
+                    return n
+                changed[0] = True
+                return ast.copy_location(r, n)
+
+        T().visit(self.fn)
+        return changed[0]
+
+    def run(self) -> ast.FunctionDef:
+        self._unrolled: dict[str, bool] = {}
+        self.inline_helpers()
+        for _ in range(6):
+            seqs = self.seq_names()
+            before = {k for k in seqs}
+            ch = self.expand_comprehensions(seqs)
+            ch = self.unroll_loops(self.seq_names()) or ch
+            ch = self.split_tuple_assigns() or ch
+            for k in before:
+                self._unrolled[k] = True
+            if not ch:
+                break
+        self.drop_dead_seqs()
+        ast.fix_missing_locations(self.fn)
+        return self.fn
+
+
+_DESUGAR_CACHE: dict = {}
+
+
+def desugar(mod, qual: str) -> ast.FunctionDef:
+    """Normalised deep copy of the function `qual` of module `mod` (see _Desugar)."""
+    orig = mod.func(qual)
+    cls = mod.get(qual.rsplit(".", 1)[0]) if "." in qual else None
+    key = (mod.digest, mod.rel, qual)
+    if key not in _DESUGAR_CACHE:
+        fn = copy.deepcopy(orig)
+        _DESUGAR_CACHE[key] = _Desugar(mod, fn, cls if isinstance(cls, ast.ClassDef) else None).run()
+    return _DESUGAR_CACHE[key]
+
+
 @dataclass
 class Def:
     stmt: ast.stmt
@@ -135,7 +457,7 @@ class Fn:
 
     def __init__(self, mod, qual: str):
         self.mod, self.qual = mod, qual
-        self.fn = mod.func(qual)
+        self.fn = desugar(mod, qual)
         self.stmts = list(stmts_local(self.fn))
         self.order = {id(s): i for i, s in enumerate(self.stmts)}
         self.pm = parent_map(self.fn)
@@ -1542,31 +1864,90 @@ def check_partition(ctx: Ctx) -> None:
                       construct=f"return[{pos}] = {nm}: shape {u(shp)}")
 
 
+CALLEE_HOME = {"zero_rows": ("src/porepy/numerics/linalg/matrix_operations.py", "zero_rows"),
+               "expand_indices_nd": ("src/porepy/utils/array_operations.py", "expand_indices_nd")}
+
+
+def bind_call(ctx: Ctx, call: ast.Call, where: str) -> dict[str, ast.expr]:
+    """Arguments of a call to a known library function bound to its parameter names (positional and keyword
+    arguments, no defaults filled in); the parameter order is returned under the key '' as a Tuple of names."""
+    home = CALLEE_HOME.get(call_name(call) or "")
+    if home is None:
+        raise Undecided(f"{where}: no signature known for {u(call.func)}")
+    d = ctx.repo.module(home[0]).func(home[1])
+    params = [a.arg for a in d.args.args]
+    if any(isinstance(a, ast.Starred) for a in call.args) or any(k.arg is None for k in call.keywords) or len(call.args) > len(params):
+        raise Undecided(f"{where}: cannot bind the arguments of {u(call)[:80]}")
+    out: dict[str, ast.expr] = dict(zip(params, call.args))
+    for k in call.keywords:
+        if k.arg in out or k.arg not in params + [a.arg for a in d.args.kwonlyargs]:
+            raise Undecided(f"{where}: cannot bind the arguments of {u(call)[:80]}")
+        out[k.arg] = k.value  # type: ignore[index]
+    out[""] = ast.Tuple(elts=[ast.Name(id=x, ctx=ast.Load()) for x in params], ctx=ast.Load())
+    return out
+
+
 def check_helper(ctx: Ctx) -> None:
     """R6: remove_nonlocal_contribution(raw_ind, nd, *args) zeroes rows expand_indices_nd(raw_ind, nd) of every arg."""
     mod = ctx.repo.module(FVUTILS)
     f = Fn(mod, "remove_nonlocal_contribution")
+    where = f"{FVUTILS}:remove_nonlocal_contribution"
     a = f.fn.args
     if len(a.args) != 2 or a.vararg is None:
-        raise AnchorError(f"{FVUTILS}:remove_nonlocal_contribution(raw_ind, nd, *args) signature expected")
+        raise AnchorError(f"{where}(raw_ind, nd, *args) signature expected")
     p0, p1, va = a.args[0].arg, a.args[1].arg, a.vararg.arg
     loops = [s for s in f.stmts if isinstance(s, ast.For)]
     zr = [(s, c) for s in f.stmts if isinstance(s, ast.Expr) for c in [s.value] if isinstance(c, ast.Call) and call_name(c) == "zero_rows"]
-    if len(loops) != 1 or len(zr) != 1:
-        raise Undecided(f"{FVUTILS}:remove_nonlocal_contribution: expected one loop calling zero_rows once")
+    if len(loops) != 1 or len(zr) != 1 or not f.contains(loops[0], zr[0][0]):
+        raise Undecided(f"{where}: expected one loop calling zero_rows once")
     lp, (zs, zc) = loops[0], zr[0]
-    ctx.check("R6", isinstance(lp.iter, ast.Name) and lp.iter.id == va, mod, "remove_nonlocal_contribution", lp,
-              f"the loop must visit every matrix passed (*{va}); found iteration over {u(lp.iter)}",
-              construct="loop over all matrices", facts={"iter": u(lp.iter)})
-    ok = f.contains(lp, zs) and len(zc.args) == 2 and u(zc.args[0]) == u(lp.target)
+    it = lp.iter
+    if isinstance(it, ast.Name) and it.id == va:
+        ok = True
+    elif isinstance(it, ast.Subscript) and isinstance(it.value, ast.Name) and it.value.id == va:
+        ok = False  # a slice / item of the matrices: some are skipped
+    else:
+        raise Undecided(f"{where}: loop over an unrecognised iterable [{u(it)[:60]}]")
+    ctx.check("R6", ok, mod, "remove_nonlocal_contribution", lp,
+              f"the loop must visit every matrix passed (*{va}); found iteration over {u(it)}",
+              construct="loop over all matrices", facts={"iter": u(it)})
+    zb = bind_call(ctx, zc, where)
+    zp = [n.id for n in zb[""].elts]  # type: ignore[attr-defined]
+    if len(zp) < 2 or zp[0] not in zb or zp[1] not in zb:
+        raise Undecided(f"{where}: zero_rows is not called with a matrix and rows")
+    mat = zb[zp[0]]
+    if isinstance(mat, ast.Name) and isinstance(lp.target, ast.Name) and mat.id == lp.target.id:
+        ok = True
+    elif va in names_in(mat):
+        ok = False  # a fixed item of the matrices instead of the loop variable
+    else:
+        raise Undecided(f"{where}: zero_rows applied to an unrecognised matrix [{u(mat)[:60]}]")
     ctx.check("R6", ok, mod, "remove_nonlocal_contribution", zs, "zero_rows must be applied to the loop variable",
               construct="zero_rows(<loop variable>, rows)")
-    rows = f.canon(zc.args[1], zs) if len(zc.args) == 2 else None
-    ok = (isinstance(rows, ast.Call) and call_name(rows) == "expand_indices_nd" and [u(x) for x in rows.args[:2]] == [p0, p1]
-          and len(rows.args) == 2 and not rows.keywords)
-    ctx.check("R6", ok, mod, "remove_nonlocal_contribution", zs,
+    rows = f.canon(zb[zp[1]], zs)
+    if not (isinstance(rows, ast.Call) and call_name(rows) == "expand_indices_nd"):
+        raise Undecided(f"{where}: rows zeroed are not expand_indices_nd(...) [{u(rows)[:60]}]")
+    eb = bind_call(ctx, rows, where)
+    ep = [n.id for n in eb[""].elts]  # type: ignore[attr-defined]
+    if len(ep) < 2 or ep[0] not in eb or ep[1] not in eb:
+        raise Undecided(f"{where}: expand_indices_nd is not called with indices and nd")
+    ind, ndx = eb[ep[0]], eb[ep[1]]
+    order = eb.get(ep[2]) if len(ep) > 2 else None
+
+    def is_param(x: ast.expr, pn: str) -> Optional[bool]:
+        if isinstance(x, ast.Name):
+            return x.id == pn if x.id in (p0, p1) else None
+        if isinstance(x, ast.Constant):
+            return False
+        return None
+
+    k0, k1 = is_param(ind, p0), is_param(ndx, p1)
+    if k0 is None or k1 is None or (order is not None and not isinstance(order, ast.Constant)):
+        raise Undecided(f"{where}: arguments of expand_indices_nd are not the function's parameters [{u(rows)[:80]}]")
+    ok = k0 and k1 and (order is None or order.value == "F")  # type: ignore[union-attr]
+    ctx.check("R6", bool(ok), mod, "remove_nonlocal_contribution", zs,
               f"rows zeroed must be expand_indices_nd({p0}, {p1}) (default face-major ordering)",
-              construct="rows = expand_indices_nd(raw_ind, nd)", facts={"rows": u(rows) if rows is not None else None})
+              construct="rows = expand_indices_nd(raw_ind, nd)", facts={"rows": u(rows)})
 
 
 def check_tables(ctx: Ctx, mod, cls: str, key_spaces: dict) -> None:
@@ -1750,6 +2131,12 @@ def run(ctx: Ctx) -> None:
     check_producer(ctx)
     check_partition(ctx)
     check_helper(ctx)
+    if ctx.tier == "thorough":
+        ctx.note("observation (not decided statically, reported by a refactoring agent on the unmodified tree): on a 2d grid "
+                 "embedded in 3d, Mpfa.discretize with update_discretization=True + specified_cells gives vector_source / "
+                 "bound_pressure_vector_source rows differing from a full discretization (max diff 14.8 / 0.70). The glob_R "
+                 "rotation applied after the loop is taken from map_grid(sd) while the local discretizations rotate with "
+                 "map_grid(sub-grid); whether the two in-plane rotations agree is a numerical fact outside this rule family.")
 
 
 # ------------------------------------------------------------------------------------
